@@ -26,6 +26,13 @@ for p in props:
     pid = p['id']
     if pid in claimed:
         d = checks.PROPS[pid]
+        fams = d['fams'].split()
+        qcaps = sorted({c for f in fams for c in checks.FAM[f]['quick']})
+        dcaps = sorted({c for f in fams for c in checks.FAM[f]['deep']})
+        profs = sorted({pr for f in fams for pr in checks.FAM[f]['profiles']})
+        bounds = ('%d harness families (%s%s); capacity/parameter tuples quick %s, thorough adds %s; build profiles %s%s. '
+                  % (len(fams), ', '.join(fams[:6]), ', ...' if len(fams) > 6 else '', qcaps[:12], dcaps[:10], profs,
+                     '; plus a second build with micromap/std on' if d.get('fams_std') else ''))
         m['checks'].append({
             'property_id': pid,
             'quick_cmd': './check %s --tier quick' % pid,
@@ -34,8 +41,9 @@ for p in props:
             'replay_cmd_template': './check --replay {path}',
             'engine': 'L',
             'level_claimed': {'category': 'model_checking',
-                              'text': d.get('level', 'bounded: every obligation is decided by a SAT solver over the compiled code of the operation for all '
-                                      'symbolic inputs and all reachable pre-states at the stated capacities; nothing is claimed beyond the bounds'),
+                              'text': 'bounded model checking of the compiled code: ' + bounds + 'Every obligation is decided by CBMC/SAT for ALL symbolic inputs '
+                                      'and ALL reachable pre-states at those capacities (single-step induction from arbitrary states built through the public API); '
+                                      'unwinding assertions guarantee the loop bounds are sufficient; nothing is claimed beyond the bounds. ' + d.get('level', ''),
                               'design_ref': 'DESIGN.md section 5 (%s)' % pid},
             'level_note': d.get('note', 'trusted: rustc IR emission, our IR->C translator (validated by selftest), CBMC, SAT solver; '
                                         'element types are ledger tokens; capacities as listed in the evidence file'),
